@@ -1,10 +1,618 @@
 /-
-  Model module `Compare` (driver op `cmp`). Import-free apart from RsjModel.* modules.
+  Model module `Compare` (driver op `cmp`), property C08.
+
+  Models, from `rsjsonnet-lang/src/program/eval/mod.rs`, the states
+  `EqualsValue`, `EqualsArray`, `EqualsObject`, `CompareValue`, `CompareArray`,
+  `BoolToValue`, `InvertBool`, `CmpOrdToBoolValueIs{Lt,Le,Gt,Ge}`,
+  `CmpOrdToIntValueThreeWay`, `TraceItem`, `DoThunk`; from `eval/expr.rs` the
+  lowering of `== != < <= > >=`; from `eval/call.rs` / `eval/stdlib.rs` the
+  built-ins `std.equals`, `std.__compare`, `std.__compare_array`
+  (`do_std_compare_array`).
+
+  Abstractions (DESIGN.md §5 C08):
+  * numbers are an abstract type `ν` with decidable equality and a three-way
+    comparison (`NumOrd`); `-0` and `0` are the same element (IEEE `==` and
+    `partial_cmp` do not distinguish them; NaN never reaches a value).
+  * strings are lists of code points; Rust compares `str` bytewise, which is
+    the same order (theorem `C08_str_order_is_codepoint`).
+  * an object is the list of its *visible* fields sorted by name
+    (`get_visible_fields_order`), each with its thunk; objects carry no `assert`s
+    (`check_object_asserts` is a no-op).
+  * a thunk either yields a value or fails (`DoThunk` on an already analysed
+    thunk: evaluation of the thunk body is not part of this property).
 -/
 import RsjModel.Util
 namespace Rsj.Compare
 
-/-- `cmp <args...>` : one canonical answer line, or `none` for a malformed request. -/
-def handle (_args : List String) : Option String := none
+/-- `EvalErrorValueType` -/
+inductive Ty where
+  | null | bool | number | string | array | object | function
+deriving Repr, DecidableEq
+
+/-- The `EvalErrorKind`s that the modelled code can report. -/
+inductive Err where
+  /-- a lazily failing element (`error "x"`) was forced -/
+  | explicit
+  | compareFunctions
+  | compareNull
+  | compareBool
+  | compareObject
+  | compareDifferentTypes (lhs rhs : Ty)
+  /-- `InvalidStdFuncArgType { func_name: "__compare_array", arg_index, got_type }` -/
+  | compareArrayArg (index : Nat) (got : Ty)
+deriving Repr, DecidableEq
+
+mutual
+inductive Value (ν : Type) where
+  | null
+  | bool (b : Bool)
+  | num (n : ν)
+  | str (s : List Nat)
+  | arr (xs : List (Thunk ν))
+  /-- visible fields, sorted by name -/
+  | obj (fs : List (String × Thunk ν))
+  | func
+/-- `Except Err Value`, as its own inductive so that `Value` is a plain nested inductive. -/
+inductive Thunk (ν : Type) where
+  | val (v : Value ν)
+  | fail (e : Err)
+end
+
+/-- Three-way comparison of numbers (`f64::partial_cmp`, never `None`) and the
+    images of `-1, 0, 1` (`f64::from(i8)`). -/
+class NumOrd (ν : Type) where
+  cmp : ν → ν → Ordering
+  ofOrdering : Ordering → ν
+
+instance : NumOrd Int where
+  cmp a b := compare a b
+  ofOrdering
+    | .lt => -1
+    | .eq => 0
+    | .gt => 1
+
+def Thunk.force {ν : Type} : Thunk ν → Except Err (Value ν)
+  | .val v => .ok v
+  | .fail e => .error e
+
+def Value.ty {ν : Type} : Value ν → Ty
+  | .null => .null
+  | .bool _ => .bool
+  | .num _ => .number
+  | .str _ => .string
+  | .arr _ => .array
+  | .obj _ => .object
+  | .func => .function
+
+/-- Lexicographic order of code point lists (`str::cmp`, see the header). -/
+def cmpCps : List Nat → List Nat → Ordering
+  | [], [] => .eq
+  | [], _ :: _ => .lt
+  | _ :: _, [] => .gt
+  | a :: as, b :: bs =>
+    if a < b then .lt else if b < a then .gt else cmpCps as bs
+
+/-! ## Declarative specifications -/
+
+section Spec
+variable {ν : Type} [DecidableEq ν] [NumOrd ν]
+
+mutual
+/-- Structural equality: lazy, left to right, stops at the first difference.
+    Array lengths / visible key lists are compared before anything is forced;
+    of one pair both sides are forced (left first) before they are compared. -/
+def structEq : Value ν → Value ν → Except Err Bool
+  | .null, .null => .ok true
+  | .bool a, .bool b => .ok (a == b)
+  | .num a, .num b => .ok (decide (a = b))
+  | .str a, .str b => .ok (decide (a = b))
+  | .arr xs, .arr ys => if xs.length ≠ ys.length then .ok false else eqList xs ys
+  | .obj fs, .obj gs =>
+    if fs.map (·.1) ≠ gs.map (·.1) then .ok false else eqFields fs gs
+  | .func, .func => .error .compareFunctions
+  | _, _ => .ok false
+def eqList : List (Thunk ν) → List (Thunk ν) → Except Err Bool
+  | .val a :: xs, .val b :: ys =>
+    match structEq a b with
+    | .ok true => eqList xs ys
+    | r => r
+  | .fail e :: _, _ :: _ => .error e
+  | .val _ :: _, .fail e :: _ => .error e
+  | _, _ => .ok true
+def eqFields : List (String × Thunk ν) → List (String × Thunk ν) → Except Err Bool
+  | (_, .val a) :: xs, (_, .val b) :: ys =>
+    match structEq a b with
+    | .ok true => eqFields xs ys
+    | r => r
+  | (_, .fail e) :: _, _ :: _ => .error e
+  | (_, .val _) :: _, (_, .fail e) :: _ => .error e
+  | _, _ => .ok true
+end
+
+mutual
+/-- Ordering: numbers, strings (code point order), arrays lexicographically;
+    everything else is an error.  Elements after the deciding position are
+    never forced. -/
+def lexCompare : Value ν → Value ν → Except Err Ordering
+  | .null, .null => .error .compareNull
+  | .bool _, .bool _ => .error .compareBool
+  | .num a, .num b => .ok (NumOrd.cmp a b)
+  | .str a, .str b => .ok (cmpCps a b)
+  | .arr xs, .arr ys => cmpThunks xs ys
+  | .obj _, .obj _ => .error .compareObject
+  | .func, .func => .error .compareFunctions
+  | a, b => .error (.compareDifferentTypes a.ty b.ty)
+def cmpThunks : List (Thunk ν) → List (Thunk ν) → Except Err Ordering
+  | [], [] => .ok .eq
+  | [], _ :: _ => .ok .lt
+  | _ :: _, [] => .ok .gt
+  | .val a :: xs, .val b :: ys =>
+    match lexCompare a b with
+    | .ok .eq => cmpThunks xs ys
+    | r => r
+  | .fail e :: _, _ :: _ => .error e
+  | .val _ :: _, .fail e :: _ => .error e
+end
+
+/-- The nine observable operations, on thunks (an operand may itself fail). -/
+inductive Op where
+  | eq | ne | stdEquals | lt | le | gt | ge | stdCompare | stdCompareArray
+deriving Repr, DecidableEq
+
+/-- Result of an operation: a boolean or a number. -/
+inductive Res (ν : Type) where
+  | bool (b : Bool)
+  | num (n : ν)
+
+def forceBoth (a b : Thunk ν) : Except Err (Value ν × Value ν) :=
+  match a.force, b.force with
+  | .ok x, .ok y => .ok (x, y)
+  | .error e, _ => .error e
+  | .ok _, .error e => .error e
+
+/-- Specification of the nine operations in terms of `structEq` / `lexCompare`. -/
+def specOp (op : Op) (a b : Thunk ν) : Except Err (Res ν) :=
+  match forceBoth a b with
+  | .error e => .error e
+  | .ok (x, y) =>
+    match op with
+    | .eq | .stdEquals => (structEq x y).map .bool
+    | .ne => (structEq x y).map (fun r => .bool (!r))
+    | .lt => (lexCompare x y).map (fun o => .bool o.isLT)
+    | .le => (lexCompare x y).map (fun o => .bool o.isLE)
+    | .gt => (lexCompare x y).map (fun o => .bool o.isGT)
+    | .ge => (lexCompare x y).map (fun o => .bool o.isGE)
+    | .stdCompare => (lexCompare x y).map (fun o => .num (NumOrd.ofOrdering o))
+    | .stdCompareArray =>
+      match x, y with
+      | .arr _, .arr _ => (lexCompare x y).map (fun o => .num (NumOrd.ofOrdering o))
+      | .arr _, _ => .error (.compareArrayArg 1 y.ty)
+      | _, _ => .error (.compareArrayArg 0 x.ty)
+
+end Spec
+
+/-! ## The machine -/
+
+/-- The interpreter states that take part in equality and ordering. -/
+inductive St (ν : Type) where
+  | doThunk (t : Thunk ν)
+  /-- `State::TraceItem(CompareArrayItem{..} | CompareObjectField{..} | Expr{..})` -/
+  | traceItem
+  | boolToValue
+  | invertBool
+  | cmpOrdToBoolValueIsLt
+  | cmpOrdToBoolValueIsLe
+  | cmpOrdToBoolValueIsGt
+  | cmpOrdToBoolValueIsGe
+  | cmpOrdToIntValueThreeWay
+  | equalsValue
+  | equalsArray (lhs rhs : List (Thunk ν)) (index : Nat)
+  /-- `rem` is `rem_fields`, head = the element `Vec::pop` returns next -/
+  | equalsObject (lhs rhs : List (String × Thunk ν)) (rem : List String)
+  | compareValue
+  | compareArray (lhs rhs : List (Thunk ν)) (index : Nat)
+  /-- `FnFallible(do_std_compare_array)` -/
+  | fnCompareArray
+
+/-- Head of each list = top of the stack. -/
+structure M (ν : Type) where
+  states : List (St ν)
+  values : List (Value ν)
+  bools : List Bool
+  ords : List Ordering
+  /-- `stack_trace_len` -/
+  traceLen : Nat
+
+inductive Fault where
+  /-- `return Err(self.report_error(..))` -/
+  | err (e : Err)
+  /-- `unwrap()` on an empty stack, slice index out of range, `assert_eq!`,
+      `usize` underflow -/
+  | panic
+deriving Repr, DecidableEq
+
+/-- `find_object_field_thunk(object, 0, name)` on the visible-field list. -/
+def lookupField {ν : Type} (name : String) : List (String × Thunk ν) → Option (Thunk ν)
+  | [] => none
+  | (k, t) :: fs => if k = name then some t else lookupField name fs
+
+section Machine
+variable {ν : Type} [DecidableEq ν] [NumOrd ν]
+
+def M.pushBool (m : M ν) (b : Bool) : M ν := { m with bools := b :: m.bools }
+def M.pushOrd (m : M ν) (o : Ordering) : M ν := { m with ords := o :: m.ords }
+def M.pushValue (m : M ν) (v : Value ν) : M ν := { m with values := v :: m.values }
+
+/-- `push(State::X{..}); push_trace_item(..); push(State::<Equals|Compare>Value);
+    push(DoThunk(rhs)); push(DoThunk(lhs))` -/
+def M.pushItem (m : M ν) (loop cmp : St ν) (l r : Thunk ν) : M ν :=
+  { m with
+    states := .doThunk l :: .doThunk r :: cmp :: .traceItem :: loop :: m.states
+    traceLen := m.traceLen + 1 }
+
+/-- Pop an ordering and push a value computed from it. -/
+def M.ordToValue (m : M ν) (f : Ordering → Value ν) : Except Fault (M ν) :=
+  match m.ords with
+  | o :: os => .ok { m with ords := os, values := f o :: m.values }
+  | [] => .error .panic
+
+/-- One iteration of the main loop for the popped state `s`
+    (`m.states` is the rest of the state stack). -/
+def exec (s : St ν) (m : M ν) : Except Fault (M ν) :=
+  match s with
+  | .doThunk t =>
+    match t with
+    | .val v => .ok (m.pushValue v)
+    | .fail e => .error (.err e)
+  | .traceItem =>
+    -- `dec_trace_len`: `checked_sub(1).unwrap()`
+    match m.traceLen with
+    | 0 => .error .panic
+    | n + 1 => .ok { m with traceLen := n }
+  | .boolToValue =>
+    match m.bools with
+    | b :: bs => .ok { m with bools := bs, values := .bool b :: m.values }
+    | [] => .error .panic
+  | .invertBool =>
+    match m.bools with
+    | b :: bs => .ok { m with bools := (!b) :: bs }
+    | [] => .error .panic
+  | .cmpOrdToBoolValueIsLt => m.ordToValue (fun o => .bool o.isLT)
+  | .cmpOrdToBoolValueIsLe => m.ordToValue (fun o => .bool o.isLE)
+  | .cmpOrdToBoolValueIsGt => m.ordToValue (fun o => .bool o.isGT)
+  | .cmpOrdToBoolValueIsGe => m.ordToValue (fun o => .bool o.isGE)
+  | .cmpOrdToIntValueThreeWay => m.ordToValue (fun o => .num (NumOrd.ofOrdering o))
+  | .equalsValue =>
+    match m.values with
+    | rhs :: lhs :: vs =>
+      let m := { m with values := vs }
+      match lhs, rhs with
+      | .null, .null => .ok (m.pushBool true)
+      | .bool a, .bool b => .ok (m.pushBool (a == b))
+      | .num a, .num b => .ok (m.pushBool (decide (a = b)))
+      | .str a, .str b => .ok (m.pushBool (decide (a = b)))
+      | .arr lhs, .arr rhs =>
+        if lhs.length ≠ rhs.length then .ok (m.pushBool false)
+        else if lhs.length = 0 then .ok (m.pushBool true)
+        else
+          match lhs[0]?, rhs[0]? with
+          | some l, some r => .ok (m.pushItem (.equalsArray lhs rhs 0) .equalsValue l r)
+          | _, _ => .error .panic
+      | .obj lhs, .obj rhs =>
+        if lhs.map (·.1) = rhs.map (·.1) then
+          match lhs.map (·.1) with
+          | first :: rem =>
+            match lookupField first lhs, lookupField first rhs with
+            | some l, some r => .ok (m.pushItem (.equalsObject lhs rhs rem) .equalsValue l r)
+            | _, _ => .error .panic
+          | [] => .ok (m.pushBool true)
+        else .ok (m.pushBool false)
+      | .func, .func => .error (.err .compareFunctions)
+      | _, _ => .ok (m.pushBool false)
+    | _ => .error .panic
+  | .equalsArray lhs rhs index =>
+    if lhs.length ≠ rhs.length then .error .panic          -- assert_eq!
+    else if lhs.length = 0 then .error .panic              -- `lhs.len() - 1`
+    else if index ≠ lhs.length - 1 then
+      match m.bools with
+      | itemEq :: bs =>
+        if itemEq then
+          let index := index + 1
+          match lhs[index]?, rhs[index]? with
+          | some l, some r =>
+            .ok ({ m with bools := bs }.pushItem (.equalsArray lhs rhs index) .equalsValue l r)
+          | _, _ => .error .panic
+        else .ok { m with bools := false :: bs }
+      | [] => .error .panic
+    else .ok m
+  | .equalsObject lhs rhs rem =>
+    match rem with
+    | next :: rem =>
+      match m.bools with
+      | fieldEq :: bs =>
+        if fieldEq then
+          match lookupField next lhs, lookupField next rhs with
+          | some l, some r =>
+            .ok ({ m with bools := bs }.pushItem (.equalsObject lhs rhs rem) .equalsValue l r)
+          | _, _ => .error .panic
+        else .ok { m with bools := false :: bs }
+      | [] => .error .panic
+    | [] => .ok m
+  | .compareValue =>
+    match m.values with
+    | rhs :: lhs :: vs =>
+      let m := { m with values := vs }
+      match lhs, rhs with
+      | .null, .null => .error (.err .compareNull)
+      | .bool _, .bool _ => .error (.err .compareBool)
+      | .num a, .num b => .ok (m.pushOrd (NumOrd.cmp a b))
+      | .str a, .str b => .ok (m.pushOrd (cmpCps a b))
+      | .arr lhs, .arr rhs =>
+        match lhs.isEmpty, rhs.isEmpty with
+        | true, true => .ok (m.pushOrd .eq)
+        | true, false => .ok (m.pushOrd .lt)
+        | false, true => .ok (m.pushOrd .gt)
+        | false, false =>
+          match lhs[0]?, rhs[0]? with
+          | some l, some r => .ok (m.pushItem (.compareArray lhs rhs 0) .compareValue l r)
+          | _, _ => .error .panic
+      | .obj _, .obj _ => .error (.err .compareObject)
+      | .func, .func => .error (.err .compareFunctions)
+      | lhs, rhs => .error (.err (.compareDifferentTypes lhs.ty rhs.ty))
+    | _ => .error .panic
+  | .compareArray lhs rhs index =>
+    match m.ords with
+    | itemCmp :: os =>
+      if itemCmp = .eq then
+        if lhs.length = 0 ∨ rhs.length = 0 then .error .panic   -- `len() - 1`
+        else
+          match decide (index = lhs.length - 1), decide (index = rhs.length - 1) with
+          | true, true => .ok { m with ords := .eq :: os }
+          | true, false => .ok { m with ords := .lt :: os }
+          | false, true => .ok { m with ords := .gt :: os }
+          | false, false =>
+            let index := index + 1
+            match lhs[index]?, rhs[index]? with
+            | some l, some r =>
+              .ok ({ m with ords := os }.pushItem (.compareArray lhs rhs index) .compareValue l r)
+            | _, _ => .error .panic
+      else .ok { m with ords := itemCmp :: os }
+    | [] => .error .panic
+  | .fnCompareArray =>
+    match m.values with
+    | rhs :: lhs :: _ =>
+      match lhs with
+      | .arr _ =>
+        match rhs with
+        | .arr _ =>
+          .ok { m with states := .compareValue :: .cmpOrdToIntValueThreeWay :: m.states }
+        | _ => .error (.err (.compareArrayArg 1 rhs.ty))
+      | _ => .error (.err (.compareArrayArg 0 lhs.ty))
+    | _ => .error .panic
+
+/-- `while let Some(state) = self.state_stack.pop() { .. }` — one iteration;
+    an empty state stack is the halted machine. -/
+def step1 (m : M ν) : Except Fault (M ν) :=
+  match m.states with
+  | [] => .ok m
+  | s :: ks => exec s { m with states := ks }
+
+/-- `n` iterations. -/
+def stepN : Nat → M ν → Except Fault (M ν)
+  | 0, m => .ok m
+  | n + 1, m =>
+    match step1 m with
+    | .ok m' => stepN n m'
+    | .error f => .error f
+
+/-- Run with fuel until the state stack is empty; `none` = out of fuel. -/
+def run : Nat → M ν → Except Fault (Option (M ν))
+  | 0, m => .ok (if m.states.isEmpty then some m else none)
+  | n + 1, m =>
+    if m.states.isEmpty then .ok (some m)
+    else
+      match step1 m with
+      | .ok m' => run n m'
+      | .error f => .error f
+
+/-- The states an operation pushes (top first), after its operands' thunks. -/
+def Op.states : Op → List (St ν)
+  | .eq => [.equalsValue, .boolToValue, .traceItem]
+  | .ne => [.equalsValue, .invertBool, .boolToValue, .traceItem]
+  | .stdEquals => [.equalsValue, .boolToValue]
+  | .lt => [.compareValue, .cmpOrdToBoolValueIsLt, .traceItem]
+  | .le => [.compareValue, .cmpOrdToBoolValueIsLe, .traceItem]
+  | .gt => [.compareValue, .cmpOrdToBoolValueIsGt, .traceItem]
+  | .ge => [.compareValue, .cmpOrdToBoolValueIsGe, .traceItem]
+  | .stdCompare => [.compareValue, .cmpOrdToIntValueThreeWay]
+  | .stdCompareArray => [.fnCompareArray]
+
+/-- `push_trace_item(TraceItem::Expr{span})` happens for the binary operators only. -/
+def Op.traceLen : Op → Nat
+  | .stdEquals | .stdCompare | .stdCompareArray => 0
+  | _ => 1
+
+def initM (op : Op) (a b : Thunk ν) : M ν :=
+  { states := .doThunk a :: .doThunk b :: op.states
+    values := [], bools := [], ords := [], traceLen := op.traceLen }
+
+inductive Outcome (ν : Type) where
+  | res (r : Res ν)
+  | err (e : Err)
+  | panic
+  | outOfFuel
+  /-- halted with stacks not restored -/
+  | unbalanced
+
+def machineOp (fuel : Nat) (op : Op) (a b : Thunk ν) : Outcome ν :=
+  match run fuel (initM op a b) with
+  | .error (.err e) => .err e
+  | .error .panic => .panic
+  | .ok none => .outOfFuel
+  | .ok (some m) =>
+    match m.values, m.bools, m.ords, m.traceLen with
+    | [.bool b], [], [], 0 => .res (.bool b)
+    | [.num n], [], [], 0 => .res (.num n)
+    | _, _, _, _ => .unbalanced
+
+end Machine
+
+/-! ## Driver: `cmp all <A> <B>` -/
+
+def showTy : Ty → String
+  | .null => "Null" | .bool => "Bool" | .number => "Number" | .string => "String"
+  | .array => "Array" | .object => "Object" | .function => "Function"
+
+def showErr : Err → String
+  | .explicit => "EExplicitError"
+  | .compareFunctions => "ECompareFunctions"
+  | .compareNull => "ECompareNullInequality"
+  | .compareBool => "ECompareBooleanInequality"
+  | .compareObject => "ECompareObjectInequality"
+  | .compareDifferentTypes l r => s!"ECompareDifferentTypesInequality:{showTy l}/{showTy r}"
+  | .compareArrayArg i t => s!"EInvalidStdFuncArgType:__compare_array/{i}/{showTy t}"
+
+def showOutcome : Outcome Int → String
+  | .res (.bool b) => if b then "true" else "false"
+  | .res (.num n) => toString n
+  | .err e => showErr e
+  | .panic => "Mpanic"
+  | .outOfFuel => "Mfuel"
+  | .unbalanced => "Munbalanced"
+
+def showSpec : Except Err (Res Int) → String
+  | .ok (.bool b) => if b then "true" else "false"
+  | .ok (.num n) => toString n
+  | .error e => showErr e
+
+/-- Field visibility in the notation: `=` default, `~` hidden, `!` forced visible. -/
+inductive Vis where
+  | dflt | hidden | forced
+deriving DecidableEq
+
+abbrev RawObj := List (String × Vis × Thunk Int)
+
+def rawLookup (k : String) : RawObj → Option (Vis × Thunk Int)
+  | [] => none
+  | (k', v, t) :: fs => if k' = k then some (v, t) else rawLookup k fs
+
+/-- `A + B` without `self`/`super` references: the right field wins, a default
+    (`:`) visibility on the right inherits the left one. -/
+def rawPlus (a b : RawObj) : RawObj :=
+  a.map (fun (k, v, t) =>
+    match rawLookup k b with
+    | some (v', t') => (k, (if v' = .dflt then v else v'), t')
+    | none => (k, v, t))
+  ++ b.filter (fun (k, _, _) => (rawLookup k a).isNone)
+
+def insertField (f : String × Thunk Int) : List (String × Thunk Int) → List (String × Thunk Int)
+  | [] => [f]
+  | g :: gs => if f.1 < g.1 then f :: g :: gs else g :: insertField f gs
+
+/-- visible fields, sorted by name -/
+def rawFinish (o : RawObj) : Value Int :=
+  .obj ((o.filter (fun (_, v, _) => v ≠ .hidden)).foldr (fun (k, _, t) acc => insertField (k, t) acc) [])
+
+def isKeyChar (c : Char) : Bool := c.isLower || c.isDigit || c == '_'
+
+def parseCps (s : String) : Option (List Nat) :=
+  if s == "-" then some []
+  else (s.splitOn ".").mapM (fun x => x.toNat?)
+
+mutual
+/-- Recursive-descent parser of the value notation (see `harness/src/ops_cmp.rs`);
+    returns the thunk, the raw field list when the value is an object, and the rest. -/
+def parseVal : Nat → List Char → Option (Thunk Int × Option RawObj × List Char)
+  | 0, _ => none
+  | fuel + 1, cs =>
+    match cs with
+    | 'n' :: 'u' :: 'l' :: 'l' :: rest => some (.val .null, none, rest)
+    | 't' :: 'r' :: 'u' :: 'e' :: rest => some (.val (.bool true), none, rest)
+    | 'f' :: 'a' :: 'l' :: 's' :: 'e' :: rest => some (.val (.bool false), none, rest)
+    | 'f' :: rest => some (.val .func, none, rest)
+    | 'E' :: rest => some (.fail .explicit, none, rest)
+    | 'n' :: ':' :: rest =>
+      let t := rest.takeWhile (fun c => c.isDigit || c == '-')
+      match (String.ofList t).toInt? with
+      | some i => some (.val (.num i), none, rest.dropWhile (fun c => c.isDigit || c == '-'))
+      | none => none
+    | 's' :: ':' :: rest =>
+      let t := rest.takeWhile (fun c => c.isDigit || c == '.' || c == '-')
+      match parseCps (String.ofList t) with
+      | some cps =>
+        some (.val (.str cps), none, rest.dropWhile (fun c => c.isDigit || c == '.' || c == '-'))
+      | none => none
+    | 'a' :: '[' :: ']' :: rest => some (.val (.arr []), none, rest)
+    | 'a' :: '[' :: rest =>
+      match parseItems fuel ']' rest [] with
+      | some (xs, rest) => some (.val (.arr xs), none, rest)
+      | none => none
+    | 'o' :: '{' :: '}' :: rest => some (.val (rawFinish []), some [], rest)
+    | 'o' :: '{' :: rest =>
+      match parseFields fuel rest [] with
+      | some (o, rest) => some (.val (rawFinish o), some o, rest)
+      | none => none
+    | 'p' :: '(' :: rest =>
+      match parseVal fuel rest with
+      | some (_, some a, ',' :: rest) =>
+        match parseVal fuel rest with
+        | some (_, some b, ')' :: rest) =>
+          let o := rawPlus a b
+          some (.val (rawFinish o), some o, rest)
+        | _ => none
+      | _ => none
+    | _ => none
+/-- items separated by `,` up to `close` -/
+def parseItems : Nat → Char → List Char → List (Thunk Int) → Option (List (Thunk Int) × List Char)
+  | 0, _, _, _ => none
+  | fuel + 1, close, cs, acc =>
+    match parseVal fuel cs with
+    | some (t, _, c :: rest) =>
+      if c = ',' then parseItems fuel close rest (t :: acc)
+      else if c = close then some ((t :: acc).reverse, rest)
+      else none
+    | _ => none
+def parseFields : Nat → List Char → RawObj → Option (RawObj × List Char)
+  | 0, _, _ => none
+  | fuel + 1, cs, acc =>
+    let k := cs.takeWhile isKeyChar
+    match cs.dropWhile isKeyChar with
+    | v :: rest =>
+      let vis? : Option Vis :=
+        if v = '=' then some .dflt else if v = '~' then some .hidden
+        else if v = '!' then some .forced else none
+      match vis?, parseVal fuel rest with
+      | some vis, some (t, _, c :: rest) =>
+        if k.isEmpty || (rawLookup (String.ofList k) acc).isSome then none
+        else
+          let acc := acc ++ [(String.ofList k, vis, t)]
+          if c = ',' then parseFields fuel rest acc
+          else if c = '}' then some (acc, rest)
+          else none
+      | _, _ => none
+    | [] => none
+end
+
+def parseValue (s : String) : Option (Thunk Int) :=
+  match parseVal (2 * s.length + 2) s.toList with
+  | some (t, _, []) => some t
+  | _ => none
+
+def allOps : List Op :=
+  [.eq, .ne, .stdEquals, .lt, .le, .gt, .ge, .stdCompare, .stdCompareArray]
+
+/-- `cmp all <A> <B>`: the nine machine results; `cmp spec <A> <B>`: the nine
+    results of the declarative specification. -/
+def handle (args : List String) : Option String :=
+  match args with
+  | ["all", a, b] => do
+    let a ← parseValue a
+    let b ← parseValue b
+    pure (",".intercalate (allOps.map (fun op => showOutcome (machineOp 1000000 op a b))))
+  | ["spec", a, b] => do
+    let a ← parseValue a
+    let b ← parseValue b
+    pure (",".intercalate (allOps.map (fun op => showSpec (specOp op a b))))
+  | _ => none
 
 end Rsj.Compare
